@@ -305,6 +305,18 @@ def every_file_rule(ctx, rule: str) -> None:
                       f"{it.fq}: a configured file can be skipped by the rewrite", "an iteration of the loop over the configured files can end without a `yield`: that file is not rewritten although "
                       "its patterns match (a partial pattern such as a copyright year in a file that is already out of date stays stale on every update)", loc=it.loc(n.ast),
                       witness={"file_patterns": {"LICENSE": ["Copyright (c) 2018-YYYY"]}})
+            # ... and that record is computed in this iteration, from this file's patterns and content: no path from the start of an
+            # iteration to the `yield` avoids the call that matches the patterns against the content (a cache in front of it answers
+            # for another file whose patterns differ)
+            vnodes = {cfg.node_containing(c) for c in ast.walk(it.node)
+                      if isinstance(c, ast.Call) and unparse(c.func).split(".")[-1] in ("rfd_from_content", "rewrite_lines", "iter_matches")}
+            ctx.floor(rule, f"{it.fq}: calls that match this file's patterns against its content", len(vnodes), 1)
+            bypass = any(y in cfg.reachable(start=b, blocked_nodes=vnodes | {n.id}, skip_exc=True) for b in body_entries if b not in vnodes for y in ynodes)
+            ctx.check(rule, not bypass, f"{it.fq}: the record of every file is computed from its own patterns and content in its iteration",
+                      f"{it.fq}: a record can be yielded without matching this file's patterns against its content",
+                      "a path through the loop body reaches the `yield` without the call that validates and rewrites this file (e.g. a result cached under the content alone): "
+                      "a file that is byte-identical to an earlier one but configured with other patterns gets the other file's rendering, and its own non-matching pattern is never reported",
+                      loc=it.loc(n.ast), witness={"file_patterns": {"a.txt": ["{version}"], "b.txt": ["{pep440_version}"]}, "content": "identical"})
     ctx.floor(rule, "loops over the configured files in iter_rewritten", n_loops, 2)
 
 
